@@ -1,9 +1,12 @@
 #!/bin/sh
-# tools/seedtest.sh PATCH PROP [PROP...] — apply a patch to /repo, run the quick checks, always revert
-patch=$1; shift
-git -C /repo apply "$patch" || { echo "PATCH DOES NOT APPLY"; exit 3; }
-(cd /repo && go build ./... 2>&1 | head -3)
+# tools/seedtest.sh PATCH PROP [PROP...] — apply a patch to a scratch worktree of /repo, run the quick checks
+# against it (VERIF_REPO), remove the worktree. /repo itself is not touched.
+patch=$(readlink -f "$1"); shift
+wt=/tmp/seedrepo_$$
+git -C /repo worktree add -q "$wt" HEAD || exit 3
+git -C "$wt" apply "$patch" || { echo "PATCH DOES NOT APPLY"; git -C /repo worktree remove --force "$wt"; exit 3; }
+(cd "$wt" && GOFLAGS=-mod=mod GOPROXY=off go build ./... 2>&1 | head -3)
 for p in "$@"; do
-  cd /verif && timeout 1500 ./check $p --no-evidence 2>&1 | grep -E "VIOLATION|INCONCLUSIVE|KNOWN|tier=" | cut -c1-260 | head -6
+  cd /verif && VERIF_REPO="$wt" timeout 1500 ./check $p --no-evidence 2>&1 | grep -E "VIOLATION|INCONCLUSIVE|KNOWN|tier=" | cut -c1-260 | head -6
 done
-git -C /repo checkout -- . ; git -C /repo status --short | head -3
+git -C /repo worktree remove --force "$wt"; git -C /repo worktree prune
